@@ -272,6 +272,48 @@ pub fn run(ctx: Ctx) -> ! {
             }
         }
     });
+    // ---------------- responder with a configured (non-default, non-contiguous) version table:
+    // every proposal over version numbers 10..=15 (all 64 subsets) x four responder tables,
+    // Connected -> Recv(Propose) -> Housekeeping -> Recv(keep-alive) -> Disconnected
+    let hs_grid = {
+        use pallas_network2::behavior::responder::handshake::{HandshakeResponder, HandshakeResponderConfig};
+        use pallas_network2::protocol::handshake as hs;
+        let tables: [&[u64]; 4] = [&[13], &[11, 13, 14], &[11, 14], &[12, 13, 14, 15]];
+        let mk = |vs: &[u64]| hs::n2n::VersionTable { values: vs.iter().map(|v| (*v, crate::world::vdata())).collect() };
+        let mut n = 0u64;
+        for t in tables {
+            for mask in 0u32..64 {
+                let proposal: Vec<u64> = (0..6).filter(|i| mask >> i & 1 == 1).map(|i| 10 + i as u64).collect();
+                let r = mc_core::catch(std::panic::AssertUnwindSafe(|| {
+                    let mut b = ResponderBehavior::default();
+                    b.handshake = HandshakeResponder::new(HandshakeResponderConfig { supported_version: mk(t) });
+                    let waker = futures::task::noop_waker();
+                    let mut cx = std::task::Context::from_waker(&waker);
+                    let mut step = |b: &mut ResponderBehavior, ev: Option<InterfaceEvent<AnyMessage>>| {
+                        match ev {
+                            Some(e) => b.handle_io(e),
+                            None => b.execute(ResponderCommand::Housekeeping),
+                        }
+                        while let std::task::Poll::Ready(Some(_)) = futures::StreamExt::poll_next_unpin(b, &mut cx) {}
+                    };
+                    step(&mut b, Some(InterfaceEvent::Connected(pid(0))));
+                    step(&mut b, Some(InterfaceEvent::Recv(pid(0), vec![AnyMessage::Handshake(hs::Message::Propose(mk(&proposal)))])));
+                    step(&mut b, None);
+                    step(&mut b, Some(InterfaceEvent::Recv(pid(0), vec![AnyMessage::KeepAlive(pallas_network2::protocol::keepalive::Message::KeepAlive(1))])));
+                    step(&mut b, Some(InterfaceEvent::Disconnected(pid(0))));
+                }));
+                n += 1;
+                if let Err(p) = r {
+                    ctx.violation(
+                        p.site(),
+                        format!("responder with version table {t:?} panicked on Propose({proposal:?}): {} at {}", p.message, p.location),
+                        json!({"behaviour": "responder", "responder_versions": t, "proposal": proposal}),
+                    );
+                }
+            }
+        }
+        n
+    };
     let rcount = rcount.into_inner();
     let mut cp = command_panics.into_inner().unwrap();
     cp.extend(house_panics.into_inner().unwrap());
@@ -285,6 +327,7 @@ pub fn run(ctx: Ctx) -> ! {
         "traces_validated_against_impl" => st_i.transitions as u64 + rcount,
         "samples" => samples,
         "initiator" => json!({"states": st_i.states, "transitions": st_i.transitions, "max_depth": st_i.max_depth, "capped": st_i.capped, "fixpoint": st_i.fixpoint, "per_prefix": per_prefix, "events_in_alphabet": events.len()}),
+        "responder_handshake_grid" => json!({"histories": hs_grid, "responder_version_tables": [[13], [11, 13, 14], [11, 14], [12, 13, 14, 15]], "proposals": "every subset of versions 10..=15"}),
         "responder" => json!({"histories": rcount, "tree_depth": rdepth, "tree_depth_behind_ban_prefixes": 3, "prefixes": prefixes.len(), "events_in_alphabet": revs.len(), "outputs_drained": outs_seen.into_inner()}),
         "raw_messages" => labels,
         "distinct_outcomes" => st_i.states,
